@@ -483,16 +483,14 @@ func macroTemplates() []tmpl {
 	}
 }
 
-// macroNames: the names dimension. Ordinary names (controls), the names of the language's special forms,
-// of a builtin function, of a bound variable, of a reserved word
+// macroNames: the names dimension. Ordinary names (mfree, mac2: the controls C15.py insists are accepted), the
+// names of the language's special forms, of a builtin function, of a bound variable, of reserved words
 func macroNames() []string {
 	return []string{"mfree", "mac2",
 		"and", "or", "cond", "quote", "def", "mdef", "fn", "defn", "begin", "let", "letseq", "assert", "defmac",
 		"macexpand", "syntaxQuote", "include", "for", "set", "break", "continue", "newScope", "package", "return",
 		"list", "x", "range", "struct", "func", "method", "interface", "import", "var", "type", "go"}
 }
-
-var macroNameControls = map[string]bool{"mfree": true, "mac2": true}
 
 func namedMacroTemplate() tmpl {
 	sym := func(s string) tmpl { return tAtom([]any{"sym", s}) }
